@@ -222,7 +222,6 @@ func (d *reqDumper) op(level syntaxLevel) {
 			return
 		}
 		fmt.Fprintf(&d.out, "platform = %d", n)
-		d.buf = d.buf[4:]
 	case opNotarized:
 		d.out.WriteString("notarized")
 	case opLegacyDevID:
@@ -245,11 +244,12 @@ func (d *reqDumper) getData() []byte {
 	if !ok {
 		return nil
 	}
-	aligned := length
+	// 64-bit so that rounding a length near 2^32 up cannot wrap to zero
+	aligned := uint64(length)
 	if n := length % 4; n != 0 {
-		aligned += 4 - n
+		aligned += uint64(4 - n)
 	}
-	if uint32(len(d.buf)) < aligned {
+	if uint64(len(d.buf)) < aligned {
 		d.err = io.ErrUnexpectedEOF
 		return nil
 	}
